@@ -56,11 +56,36 @@ def map_scenario(sc):
         if e['p'].startswith('router.') and k0.startswith('s') and '-h' in k0 and not k0.startswith('s%d-' % sc['id']):
             continue        # a goroutine of an earlier scenario's router finishing late
         evs.append(e)
-    adds = [o for o in sc['ops'] if o['k'] == 'add']
+    # handler number (order of the accepted AddHandler calls) -> (publisher, honours ctx, subscriber object), from the harness's stamp
+    addinfo = {}
+    for e in evs:
+        if e['p'] == 'api.add.ret':
+            k = e['k']; addinfo[int(k[0])] = (int(k[1]), k[2] == 'true', int(k[3]) if len(k) > 3 else 1000 + int(k[0]))
     def pub_of(h):
-        return adds[h].get('pub', 0) if h < len(adds) else -1
+        return addinfo[h][0] if h in addinfo else -1
     def hon_of(h):
-        return bool(adds[h].get('hon', False)) if h < len(adds) else True
+        return addinfo[h][1] if h in addinfo else True
+    def sub_of(h):
+        return addinfo[h][2] if h in addinfo else 1000 + h
+    name2hid = {}        # a name is reused when a handler is re-added under a stopped handler's name
+    gbind = {}           # handler goroutine / handleClose goroutine -> handler number (bound at its first stamp)
+    named = {}           # name -> all handler numbers that ever had it, in order
+    hc_taken = set()     # handler numbers whose handleClose goroutine is identified
+    cancelled_h = set()  # handlers whose own context is known to be cancelled (Stop called / loop ended)
+    def hid(name, g=None, bind=False):
+        if g is not None and g in gbind: return gbind[g]
+        h = name2hid.get(name, -1)
+        if bind and g is not None: gbind[g] = h
+        return h
+    def hc_hid(name, g):
+        # a handleClose goroutine may run its first statement only after its handler has ended and the name was
+        # given to a successor: take the oldest handler of that name whose handleClose is still unidentified,
+        # preferring one whose context is known to be cancelled
+        if g in gbind: return gbind[g]
+        cands = [x for x in named.get(name, []) if x not in hc_taken]
+        pick = next((x for x in cands if x in cancelled_h), cands[0] if cands else name2hid.get(name, -1))
+        gbind[g] = pick; hc_taken.add(pick)
+        return pick
     rhret = {}; stopret = {}; closeret = {}
     for e in evs:
         k = e.get('k') or []
@@ -78,10 +103,10 @@ def map_scenario(sc):
     nadd = [0]
     spawned = set(); early_recv = {}     # handler -> LRecv labels already emitted at the emit stamp
     loop_pc = {}; late_emit = {}; unspawned_emit = {}
-    pending_hc_ctx = set()
+    pending_hc_ctx = {}; model_closed = set()
     received = {(x.get('k') or ['', ''])[1] for x in evs if x['p'] == 'router.handler.received'}; recv_done = set(); recv_late = set()
     consumed = set()     # seq of add.signalled events already emitted (hand-off at the earlier stamp)
-    pending_hc = set(); pending_pubclose = {}
+    pending_hc = {}; pending_pubclose = {}
     pending_closing = []     # the closer's "closed=true; close(closingInProgressCh)" step, placed as late as the log allows
     PROOF = ('router.life.hc.closing', 'router.handler.handleclose.closing_after_ctx', 'router.life.run.closing_seen', 'router.life.close.waited')
     def who(g):
@@ -91,15 +116,13 @@ def map_scenario(sc):
         return None
     def do_add(e):
         k = e.get('k') or []
-        h = hnum(k[0])
-        if h != nadd[0]:
-            m.problems.append('AddHandler order differs from the program order')
+        h = nadd[0]; name2hid[k[0]] = h; named.setdefault(k[0], []).append(h)
         nadd[0] += 1; maplen[0] += 1
         signalled = e['p'].endswith('signalled')
         if signalled and not FIXED_D14 and wpc[0] == 'pre':
             lab('LWatch CStep'); wpc[0] = 'in'          # the watcher must be blocked in its select
         if signalled and FIXED_D14: hadded[0] += 1
-        lab('LAdd %s %s' % (opt(pub_of(h)), 'true' if hon_of(h) else 'false'),
+        lab('LAdd %s %s %d' % (opt(pub_of(h)), 'true' if hon_of(h) else 'false', sub_of(h)),
             ['AAdd %d %s' % (h, opt(pub_of(h)))] + ([] if hon_of(h) else ['AWeak']))
     for idx, e in enumerate(evs):
         p, k, g, seq = e['p'], e.get('k') or [], e['g'], e['seq']
@@ -107,11 +130,12 @@ def map_scenario(sc):
             lab(pending_closing.pop())
         if p == 'router.handler.received':
             # the loop took a message (by UUID: the decorator pump may drop one that it holds when the context ends)
-            h = hnum(k[0])
+            h = hid(k[0], g, bind=True)
             if k[1] in recv_done: recv_done.discard(k[1])
             else: lab('LRecv %d' % h); recv_late.add(k[1])
             continue
         if p.startswith('router.handler.handleclose.'):
+            if p.endswith('.enter'): hc_hid(k[0], g)
             continue
         if p.startswith('api.'):
             w = p[4:]
@@ -136,7 +160,7 @@ def map_scenario(sc):
             elif w == 'started_obs':
                 lab('LObsStarted %d' % int(k[0])); m.hist.append(('AStartedObs %d' % int(k[0]), e))
             elif w == 'stop.call':
-                call[g] = ('stop', int(k[0])); lab('LStopCall %d %d' % (int(k[0]), int(k[1])))
+                call[g] = ('stop', int(k[0])); lab('LStopCall %d %d' % (int(k[0]), int(k[1]))); cancelled_h.add(int(k[1]))
                 m.hist.append(('AStopCall %d %d' % (int(k[0]), int(k[1])), e))
             elif w == 'stop.ret':
                 call.pop(g, None); m.hist.append(('AStopRet %d %s' % (int(k[0]), STOPRES[k[1]]), e))
@@ -164,16 +188,23 @@ def map_scenario(sc):
                 if g in pending_pubclose:
                     h = pending_pubclose.pop(g); lab('LLoop %d' % h, ['APubClose %d' % int(k[0])]); loop_pc[h] = 'wgdone'
             elif w == 'sub.close_called':
-                h = int(k[0])
-                if h in pending_hc:
-                    pending_hc.discard(h); lab('LHC %d true' % h)
-                elif h in pending_hc_ctx:
-                    pending_hc_ctx.discard(h); lab('LHC %d false' % h)
+                # the Subscriber object's Close(), called by the handleClose goroutine g of one of its handlers
+                # (its stamp precedes the per-subscription closes: a subscription of that object that its own context
+                #  ends in between is already ended in the model)
+                hh = None
+                if g in pending_hc:
+                    hh = pending_hc.pop(g); lab('LHC %d true' % hh)
+                elif g in pending_hc_ctx:
+                    hh = pending_hc_ctx.pop(g); lab('LHC %d false' % hh)
+                if hh is not None:
+                    model_closed.update(x for x in addinfo if sub_of(x) == sub_of(hh))
             elif w == 'sub.closed':
                 h = int(k[0])
-                if k[1] == 'ctx': lab('LSubCtx %d' % h)
+                if k[1] == 'ctx':
+                    if h not in model_closed: lab('LSubCtx %d' % h)
                 elif k[1] == 'env':
-                    lab('LSubEnd %d' % h, ['ASubEnd %d' % h]); m.hist.append(('ASubEnd %d' % h, e))
+                    if h not in model_closed: lab('LSubEnd %d' % h, ['ASubEnd %d' % h])
+                    m.hist.append(('ASubEnd %d' % h, e))
             elif w == 'probe_stuck':
                 m.hist.append(('AProbeStuck %d' % int(k[0]), e))
             elif w == 'run_hung':
@@ -199,14 +230,14 @@ def map_scenario(sc):
         elif w == 'rh.notrunning':
             x = who(g); t = call.get(g, ('rh', 0))[1]; lab(x + ' CStep', ['ARHRet %d false' % t])
         elif w in ('rh.subscribed', 'rh.subscribe_failed'):
-            x = who(g); h = hnum(k[0]); ok = w == 'rh.subscribed'
+            x = who(g); h = hid(k[0]); ok = w == 'rh.subscribed'
             lab('%s (CPick %d %s)' % (x, h, 'true' if ok else 'false'), ['ASubscribe %d %s' % (h, 'true' if ok else 'false')])
         elif w == 'rh.close_started':
             lab(who(g) + ' CStep')
         elif w == 'rh.started':
             pass
         elif w == 'rh.spawn':
-            lab(who(g) + ' CStep'); h = hnum(k[0]); spawned.add(h); loop_pc[h] = 'range'
+            lab(who(g) + ' CStep'); h = hid(k[0]); spawned.add(h); loop_pc[h] = 'range'
         elif w == 'rh.unlock':
             x = who(g)
             if x == 'LMain': lab('LMain CStep')
@@ -259,30 +290,30 @@ def map_scenario(sc):
         elif w == 'loop.recv':
             pass        # see router.handler.received (same point, carries the message UUID)
         elif w == 'loop.range_done':
-            h = hnum(k[0]); lab('LLoop %d' % h); loop_pc[h] = 'pubclose'
+            h = hid(k[0], g, bind=True); lab('LLoop %d' % h); loop_pc[h] = 'pubclose'; cancelled_h.add(h)
         elif w == 'loop.pub_close':
-            h = hnum(k[0])
+            h = hid(k[0], g, bind=True)
             if pub_of(h) >= 0: pending_pubclose[g] = h     # takes effect at the publisher's own Close stamp (under its mutex)
             else: lab('LLoop %d' % h, []); loop_pc[h] = 'wgdone'
         elif w == 'loop.wg_done':
-            h = hnum(k[0])
+            h = hid(k[0], g, bind=True)
             if loop_pc.get(h) == 'pubclose': lab('LLoop %d' % h)
             lab('LLoop %d' % h); loop_pc[h] = 'delete'
         elif w == 'loop.locked':
-            lab('LLoop %d' % hnum(k[0])); maplen[0] -= 1
+            lab('LLoop %d' % hid(k[0], g, bind=True)); maplen[0] -= 1
         elif w == 'loop.close_stopped':
-            lab('LLoop %d' % hnum(k[0]))
+            lab('LLoop %d' % hid(k[0], g, bind=True))
         elif w == 'hc.closing':
-            pending_hc.add(hnum(k[0]))
+            pending_hc[g] = hc_hid(k[0], g)
         elif w == 'hc.ctx':
             # select took ctx.Done; then the non-blocking poll of routersCloseCh (D6 repair).  Poll saw it open: the
             # model step goes here (as early as the log allows); saw it closed: at the subscriber's Close stamp
-            h = hnum(k[0])
+            h = hc_hid(k[0], g)
             nxt = next((x for x in evs[idx + 1:] if x['g'] == g and x['p'].startswith('router.handler.handleclose.') and
                         x['p'].rsplit('.', 1)[1] in ('closing_after_ctx', 'not_closing')), None)
             if nxt is None: pass
             elif nxt['p'].endswith('not_closing'): lab('LHC %d false' % h)
-            else: pending_hc_ctx.add(h)
+            else: pending_hc_ctx[g] = h
         elif w == 'stop.enter':
             t = call.get(g, ('stop', 0))[1]
             lab('LT %d CStep' % t, ['AStopRet %d StopNotStarted' % t] if k[1] != 'true' else [])
@@ -368,13 +399,13 @@ TRUSTED_BASE = [
 ASSUMPTIONS = [
     'Run is not called concurrently with another Run\'s first two statements, and Stop()/Stopped() are read after <-Started() or before any RunHandlers: the unsynchronised fields isRunning / started / stopped are modelled as atomic reads '
     '(concurrent first Run calls are a data race outside the model)',
-    'one subscriber object per handler (subscriber.Close() of handleClose ends that handler\'s subscription only); handlers are not added while the router shuts down (property quantifier)',
+    'Subscriber objects may be shared between handlers (model field h_sub; subscriber.Close() ends the subscriptions of all handlers using that object); handlers are not added while the router shuts down (property quantifier)',
     'liveness verdicts on the implementation (Run returns, probe message taken, Stopped() closes) use watchdogs of 5-8 s after the triggering call; they are testing-level, the model-side statement is C10_self_close_not_stuck',
     'data races are outside the model',
 ]
 
-RULE = ('lifecycle client programs on a real Router with scripted subscribers/publishers: 28 forced schedules (park rules at router.life.* hook points: Stop/Stopped right after Started(), empty start with the watcher held, '
-        'RunHandlers x4 held mid-loop, Stop before the goroutine is spawned, loop held before wg.Done, held handleClose, the RunHandlers of Run held until Running() is observed, cancel on an empty router, failing Subscribe, shared/unshared publishers, foreign context, second Run during / after self-close / after Close / after cancel / after a failed Run, Stop while another handler is inside a slow handler call with a third handler probed, calls before Run, Close x3), '
+RULE = ('lifecycle client programs on a real Router with scripted subscribers/publishers: 32 forced schedules (park rules at router.life.* hook points: Stop/Stopped right after Started(), empty start with the watcher held, '
+        'RunHandlers x4 held mid-loop, Stop before the goroutine is spawned, loop held before wg.Done, held handleClose, the RunHandlers of Run held until Running() is observed, cancel on an empty router, failing Subscribe, shared/unshared publishers, foreign context, second Run during / after self-close / after Close / after cancel / after a failed Run, Stop while another handler is inside a slow handler call with a third handler probed, calls before Run, Close x3, re-add under a stopped handler\'s name while its goroutine still finishes (slow publisher Close) and after it finished, handlers sharing one Subscriber object with one of them stopped / the router closed), '
         'pause point x client action pairs on a fixed 3-handler program, and seeded random programs over the C10 grammar with seeded yields at every hook; '
         'non-trivial = at least 25 model labels replayed; distinct by program and sizes.')
 
